@@ -918,7 +918,8 @@ def key_from_jwk(d):
 def coq_eval(cases, shard=30, max_chars=90000, jobs=10, attempt=0):
     import time as _t
     ev = lib.CoqEval(IMPORTS, "jwecase", "jwe_check", "jwe_show", shard=shard, max_chars=max_chars, preamble=preamble())
-    res = ev.run(cases, jobs=jobs)
+    # CoqEval.run gives up after `timeout` seconds for the whole batch: scale it with the batch
+    res = ev.run(cases, jobs=jobs, timeout=900 + len(cases) // 4)
     if not res["errors"] or attempt >= 3:
         return res
     # shard boundaries, as CoqEval.run computes them
